@@ -511,3 +511,74 @@ HARNESSES.append(
       bounds=lambda tier: {"ttl": "soft 2 ms, hard 5 ms", "operations": "3 after the initial put, start instants from {0,1,2,3,5,6,8} ms after it (gets: +-1 ns), non-decreasing",
                            "kinds": ["get(k)", "put(k)", "get(other)", "invalidate(k)", "backing store written directly"], "capacity": [1, 2]},
       outside=["other TTL values", "more than 3 operations", "invalidate_all"]))
+
+
+# ------------------------------------------------------------------ multi-tier cache
+def multi_tier(sym, tier):
+    """MultiTierCache [L1 capacity 1, L2 capacity 2] (write-through CachedStores, LRU) over one KVStore,
+    every promotion policy: get/put/delete/invalidate script, one operation at a time, against a dict.
+    Before the script some keys may already sit in L2 only (as after an L1 eviction)."""
+    from happysimulator.components.datastore.multi_tier_cache import MultiTierCache, PromotionPolicy
+    r = Result()
+    pol = [PromotionPolicy.ALWAYS, PromotionPolicy.NEVER, PromotionPolicy.ON_SECOND_ACCESS][sym.choice("promotion", 3)]
+    store = KVStore("kv", read_latency=0.001, write_latency=0.002)
+    l1 = CachedStore("l1", backing_store=store, cache_capacity=1, eviction_policy=LRUEviction(), write_through=True, cache_read_latency=0.0001)
+    l2 = CachedStore("l2", backing_store=store, cache_capacity=2, eviction_policy=LRUEviction(), write_through=True, cache_read_latency=0.0005)
+    mt = MultiTierCache("mt", tiers=[l1, l2], backing_store=store, promotion_policy=pol)
+    model = {}
+    nk = 3
+    # pre-state: keys written through L2 directly (the store and L2 agree, L1 does not know them)
+    for i in range(2):
+        if sym.bool(f"preloaded_in_l2_{i}"):
+            _drive(l2.put(KEYS[i], 90 + i))
+            model[KEYS[i]] = 90 + i
+            r.wit.add("key_only_in_l2")
+    n = 3 if tier == "quick" else 4
+    script = []
+    for s_ in range(n):
+        op = sym.choice(f"op{s_}", 4)
+        k = KEYS[sym.choice(f"key{s_}", nk)]
+        if op == 0:
+            got = _drive(mt.get(k))
+            script.append(("get", k, got))
+            if got != model.get(k):
+                r.bad("read_after_completed_write_returns_it", {"script": script, "got": got, "want": model.get(k), "promotion": pol.name})
+                break
+        elif op == 1:
+            v = sym.int(f"val{s_}", 1, 9)
+            _drive(mt.put(k, v))
+            model[k] = v
+            script.append(("put", k, v))
+        elif op == 2:
+            _drive(mt.delete(k))
+            model.pop(k, None)
+            script.append(("delete", k))
+        else:
+            mt.invalidate(k)
+            script.append(("invalidate", k))
+        for t_, cap in ((l1, 1), (l2, 2)):
+            if t_.cache_size > cap:
+                r.bad("cache_never_exceeds_capacity", t_.name, script)
+            tracked = _drain(copy.deepcopy(t_._eviction_policy))
+            if sorted(tracked) != sorted(t_.get_cached_keys()):
+                r.bad("policy_keys_equal_cached_keys", {"tier": t_.name, "script": script, "policy": sorted(tracked), "cache": sorted(t_.get_cached_keys())})
+            for ck in t_.get_cached_keys():
+                if t_._cache[ck] != store.get_sync(ck):
+                    r.bad("write_through_tier_agrees_with_the_store", {"tier": t_.name, "key": ck, "cached": t_._cache[ck], "store": store.get_sync(ck), "script": script})
+    if mt.stats.promotions:
+        r.wit.add("promotion")
+    for k in KEYS[:nk]:
+        if store.get_sync(k) != model.get(k):
+            r.bad("write_through_store_holds_last_write", {"key": k, "store": store.get_sync(k), "want": model.get(k), "script": script})
+    r.obs = {"script": script, "promotion": pol.name}
+    return r
+
+
+HARNESSES.append(
+    H(name="c16_multi_tier", fn=multi_tier, shape="S", budget=lambda tier: 900.0 if tier == "quick" else 3000.0,
+      cubes=lambda tier: [{"promotion": a, "op0": b, "key0": 0} for a in range(3) for b in range(4)],
+      require=lambda tier: ["promotion", "key_only_in_l2"], classify=overlap_classify,
+      functions=["MultiTierCache.get/put/delete/invalidate/_maybe_promote/_cache_value", "CachedStore.get/put/invalidate/_cache_put (as tiers)", "KVStore.*"],
+      bounds=lambda tier: {"tiers": "L1 capacity 1, L2 capacity 2, LRU, write-through", "ops": 3 if tier == "quick" else 4, "keys": 3, "pre-state": "0-2 keys present in L2 and the store only",
+                           "promotion": ["always", "never", "on_second_access"]},
+      outside=["overlapping operations on a multi-tier cache", "write-back tiers", "more than two tiers"]))
